@@ -5,6 +5,7 @@ package proc
 import (
 	"fmt"
 	"os"
+	"os/exec"
 	"path/filepath"
 	"sort"
 	"strings"
@@ -286,6 +287,11 @@ func c19ProcWalker(t *rapid.T) {
 	// a directory that cannot be read (fzf runs as an unprivileged user then): it is listed, its
 	// content cannot be, and everything else is listed as usual
 	locked := rapid.IntRange(0, 3).Draw(t, "unreadableDir") == 0
+	if !nobodyCanWork() {
+		// this copy of the harness lives where the unprivileged user cannot go (e.g. below /root):
+		// everything is readable for root, the unreadable directory cannot be staged
+		locked = false
+	}
 	if locked {
 		os.Chmod(root, 0o755)
 		dirName := rapid.SampledFrom([]string{"locked", "a-locked", "zz-locked"}).Draw(t, "lockedName")
@@ -545,4 +551,21 @@ func c19WalkerFilter(t *rapid.T) {
 
 func TestVerifC19_ProcWalkerFilter(t *testing.T) {
 	rapid.Check(t, c19WalkerFilter)
+}
+
+var nobodyOnce sync.Once
+var nobodyOK bool
+
+// nobodyCanWork tells whether a process running as "nobody" can enter the work directory.
+func nobodyCanWork() bool {
+	nobodyOnce.Do(func() {
+		probe, err := os.MkdirTemp(workDir, "nobody-probe")
+		if err != nil {
+			return
+		}
+		defer os.RemoveAll(probe)
+		os.Chmod(probe, 0o777)
+		nobodyOK = exec.Command("setpriv", "--reuid=65534", "--regid=65534", "--clear-groups", "sh", "-c", "echo x > "+shQuote(filepath.Join(probe, "f"))).Run() == nil
+	})
+	return nobodyOK
 }
